@@ -1,0 +1,35 @@
+//go:build verif
+// +build verif
+
+package iter
+
+// Contracts for package iter (consumed by /verif/govc; comment-only file).
+
+//@ func NewInter
+//@   props C02
+//@   ensures result.1 == nil ==> result.0 != nil && gget(itrem, result.0) >= 0 && gget(itpos, result.0) == 0
+//@   ensures result.1 != nil ==> result.0 == nil
+//@   modifies nothing
+//@   trusted iterator abstraction (itrem/itpos/itkey) is linked to the three implementations by the concrete contracts below; the link itself is a paper argument
+
+//@ func (*sliceIter).Next
+//@   props C02
+//@   ensures result == (sl.cur < sl.max)
+//@   modifies nothing
+
+//@ func (*sliceIter).Key
+//@   props C02
+//@   requires sl.cur < 4611686018427387904
+//@   ensures sl.cur == old(sl.cur) + 1 && sl.max == old(sl.max)
+//@   modifies sl.cur
+
+//@ func (*mapIter).Next
+//@   props C02
+//@   ensures result == (mp.cur < len(mp.keys))
+//@   modifies nothing
+
+//@ func (*mapIter).Key
+//@   props C02
+//@   ensures old(mp.cur) < len(mp.keys) ==> mp.cur == old(mp.cur) + 1 && result == old(mp.keys[mp.cur])
+//@   ensures old(mp.cur) >= len(mp.keys) ==> mp.cur == old(mp.cur) && result == RV_zero()
+//@   modifies mp.cur
